@@ -64,10 +64,16 @@ def nonanticipative_case(N, T, ul_kind, deriv_kind, inputs, model_kind, H=1, xmo
                  for f in inputs]
         stepwise = "prev_hedge" in inputs
 
+        shared = {}
+
         def run(bufs):
             b = dict(base)
             b.update(bufs)
             deriv, hedge = build(c, N, T, ul_kind, deriv_kind, H, "x", b)
+            if "hedger" in shared and model_kind in ("uf", "linear", "naked"):
+                # the same hedger object is used again (a stale state from the previous evaluation -- which
+                # saw different future columns -- must not leak into this one)
+                return shared["hedger"].compute_hedge(deriv, hedge)
             with facades.real_torch():
                 if model_kind == "uf":
                     model = cm.UFModel(H)
@@ -83,6 +89,7 @@ def nonanticipative_case(N, T, ul_kind, deriv_kind, inputs, model_kind, H=1, xmo
                     model = Naked(H)
             ins = model.inputs() if model_kind in ("bs", "ww") else feats
             hedger = cm.make_hedger(c, ins, H, model=model)
+            shared["hedger"] = hedger
             return hedger.compute_hedge(deriv, hedge)
 
         full = run(A)
